@@ -1051,7 +1051,9 @@ class PolyhedralTermList(TermList):  # noqa: WPS338
             # 4 : Numerical difficulties encountered.
             res = linprog(c=objective, A_ub=a_opt, b_ub=b_opt, bounds=(None, None))  # ,options={'tol':0.000001})
             b_temp[i] -= 1
-            if res["status"] == 3 or (res["status"] == 0 and -res["fun"] <= b_temp[i]):  # noqa: WPS309
+            # the problem is bounded by its own relaxed row: an "unbounded" answer (status 3) is a solver
+            # failure and no evidence that the row is redundant
+            if res["status"] == 0 and -res["fun"] <= b_temp[i]:  # noqa: WPS309
                 logging.debug("Can remove")
                 a_temp = np.delete(a_temp, i, 0)
                 b_temp = np.delete(b_temp, i)
